@@ -43,7 +43,7 @@ class ProbeDevice(Device):
         yield self._rv
 
     def process(self, telegram):
-        self._log.append(self.name)
+        self._log.append(self.key)
 
 
 class _Started:
@@ -54,20 +54,25 @@ class _Started:
 GAS = [GroupAddress("1/1/1"), GroupAddress("1/1/2"), InternalGroupAddress("i-x")]
 # device -> addresses it uses (shared addresses, one device on all, one on none)
 POOL = {"a": [0], "b": [0, 1], "c": [1, 2], "d": [0, 1, 2], "e": []}
+# two more devices that carry the *same name* as "a" / "b" (names are not identities)
+NAMES = {"a": "a", "b": "b", "c": "c", "d": "d", "e": "e", "a2": "a", "b2": "b"}
+POOL.update({"a2": [0, 2], "b2": [1]})
 
 
 def _histories(tier):
-    n = 4 if tier == "quick" else 6
+    n = 4 if tier == "quick" else 5
     ops = [(k, d) for k in ("add", "remove") for d in POOL]
     for length in range(0, n + 1):
         for h in itertools.product(ops, repeat=length):
             yield (h,)
 
 
-@standin("C37", cases=_histories, kind="enum-native", exhaustive=True, bound="every history of up to 4 (quick) / 6 (thorough) add/remove operations over 5 devices sharing 3 group addresses (10^4 / 10^6 histories), after every step: dispatch for each address compared with a naive scan")
+@standin("C37", cases=_histories, kind="enum-native", exhaustive=True, bound="every history of up to 4 (quick) / 5 (thorough) add/remove operations over 7 devices (two pairs with equal names) sharing 3 group addresses (4*10^4 / 5*10^5 histories), after every step: dispatch for each address compared with a naive scan")
 def registry_matches_naive_scan(history):
     log = []
-    devs = {n: ProbeDevice(n, [GAS[i] for i in idx], log) for n, idx in POOL.items()}
+    devs = {n: ProbeDevice(NAMES[n], [GAS[i] for i in idx], log) for n, idx in POOL.items()}
+    for n, d in devs.items():
+        d.key = n
     registry = Devices(started=_Started())
     model = []  # registration order
     for op, name in history:
@@ -85,7 +90,7 @@ def registry_matches_naive_scan(history):
         except ValueError:
             assert (op == "add") == (name in before), (op, name, before)
         # the registry's observable state equals the model after every step (also after a refused one)
-        assert [x.name for x in registry] == model and len(registry) == len(model)
+        assert [x.key for x in registry] == model and len(registry) == len(model)
         for i, ga in enumerate(GAS):
             del log[:]
             registry.process(Telegram(destination_address=ga, payload=GroupValueWrite(DPTBinary(1))))
